@@ -75,8 +75,9 @@ func (m *mgr) close(ids []uuid.UUID, entry func(pb.DatasetManagerChangeType, []b
 }
 
 type part struct {
-	Id    string `json:"id"`
-	Nodes []int  `json:"nodes"`
+	Id     string `json:"id"`
+	Nodes  []int  `json:"nodes"`  // as the dataset descriptor (Meta) lists them: what List / Get / the catalogue snapshot say
+	PNodes []int  `json:"pnodes"` // as the partition object itself holds them: what routing and raft loading go by
 }
 type dsv struct {
 	Id    string `json:"id"`
@@ -100,7 +101,11 @@ func (m *mgr) view(ids []uuid.UUID) []dsv {
 			for _, n := range p.GetNodeIds() {
 				ns = append(ns, int(n))
 			}
-			v.Parts = append(v.Parts, part{pid.String()[:8], ns})
+			pns := []int{}
+			for _, n := range ds.VerifPartitionNodes(len(v.Parts)) {
+				pns = append(pns, int(n))
+			}
+			v.Parts = append(v.Parts, part{pid.String()[:8], ns, pns})
 		}
 		out = append(out, v)
 	}
